@@ -54,11 +54,12 @@ type Cloud struct {
 	mutations          int
 	timedOut           map[string]string // create parameters -> interface created by a call that then reported failure
 	deleteFailed       map[string]bool
-	createFailed       map[string]bool // interfaces created by a create call that reported failure, not adopted since
+	adoptedAt          map[string]time.Time // interface -> when a retried create got it back through the idempotency token
+	createFailed       map[string]bool      // interfaces created by a create call that reported failure, not adopted since
 }
 
 func newCloud(w *World) *Cloud {
-	return &Cloud{w: w, enis: map[string]*cENI{}, timedOut: map[string]string{}, deleteFailed: map[string]bool{}, createFailed: map[string]bool{}}
+	return &Cloud{w: w, enis: map[string]*cENI{}, timedOut: map[string]string{}, deleteFailed: map[string]bool{}, createFailed: map[string]bool{}, adoptedAt: map[string]time.Time{}}
 }
 
 func (c *Cloud) newENI(typ, status, instance, trunk string, tags map[string]string, created time.Time, byCtrl bool) *cENI {
@@ -177,6 +178,7 @@ func (c *Cloud) CreateNetworkInterface(ctx context.Context, opts ...aliyunClient
 			}
 			delete(c.timedOut, pkey)
 			delete(c.createFailed, id)
+			c.adoptedAt[id] = time.Now()
 			e.CreatedIn = c.w.currentPass()
 			c.w.run.Probe("create-retry-idempotent")
 			c.leave("create", id+" (same token: existing interface)")
